@@ -41,6 +41,7 @@ type AsmProg struct {
 	Ins     []AsmIns          `json:"ins"`
 	Mem     map[string]string `json:"mem"` // absolute address (decimal) -> hex bytes readable there
 	Consts  map[string]int64  `json:"consts"`
+	Ops     []AsmOp           `json:"ops"` // structured program (decoder dumps): op, char, target(s)
 	labels  map[string]int
 }
 
@@ -94,6 +95,7 @@ type AsmState struct {
 	// a store there is dropped. Sound for checks that only constrain addresses, not contents.
 	Lenient bool
 	Watch   string
+	curIns  *AsmIns // instruction being executed (immediate-width rule in asmGet)
 }
 
 type AsmHooks struct {
@@ -290,7 +292,16 @@ func (x *Exec) asmGet(p *AsmProg, st *AsmState, o *AsmOperand, size int) Value {
 		if o.Y != "" && o.Y != "addr" {
 			return SymAddr{o.Y, uint64(o.O)}
 		}
-		return x.st.Const(size*8, uint64(o.O))
+		c := uint64(o.O)
+		if size == 8 && st.curIns != nil && c >= 1<<31 && c < 1<<32 {
+			// x86-64 has no 64-bit immediates outside MOV to a register: an immediate in
+			// [2^31, 2^32) is emitted as imm32 and SIGN-extended by the processor
+			in := st.curIns
+			if !(in.Op == "MOVQ" && in.T.K == "reg") {
+				c |= 0xFFFFFFFF00000000
+			}
+		}
+		return x.st.Const(size*8, c)
 	case "mem":
 		return x.asmLoadMem(p, st, o, size)
 	}
@@ -420,11 +431,16 @@ func (x *Exec) RunAsm(p *AsmProg, st *AsmState, hooks AsmHooks, maxSteps int) st
 		if st.Steps > maxSteps {
 			x.abort(abBudget, "asm step budget exhausted in %s", p.Name)
 		}
+		pcBefore := st.PC
 		if hooks.OnIns != nil && !hooks.OnIns(st, in) {
 			return "stopped"
 		}
+		if st.PC != pcBefore {
+			continue // the hook summarised a stretch of code and moved the program counter
+		}
 		next := st.PC + 1
 		op := in.Op
+		st.curIns = in
 		switch {
 		case op == "NOP":
 		case op == "RET":
@@ -719,6 +735,23 @@ func (x *Exec) RunAsm(p *AsmProg, st *AsmState, hooks AsmHooks, maxSteps int) st
 				}
 			}
 			x.notEncoded("asm: raw data %s $%d in the instruction stream", op, in.F.O)
+		case op == "DIVQ":
+			// unsigned divide RDX:RAX by the operand; only the RDX == 0 form is emitted (hash % n)
+			d := x.asmTerm(x.asmGet(p, st, &in.F, 8))
+			hi := x.asmTerm(x.asmReg(st, "DX"))
+			lo := x.asmTerm(x.asmReg(st, "AX"))
+			if !hi.IsConst() || hi.Val != 0 {
+				x.notEncoded("asm: DIVQ with a non-zero high half")
+			}
+			x.check(s.Ne(d, x.c64(0)), "assert", "generated code divides by zero")
+			if st.Lenient {
+				// quotient and remainder only select entries of tables that live in angelic memory
+				q, r := x.junk(64), x.junk(64)
+				x.assume(s.Ult(r, d))
+				st.R["AX"], st.R["DX"] = q, r
+			} else {
+				st.R["AX"], st.R["DX"] = s.UDiv(lo, d), s.URem(lo, d)
+			}
 		case op == "UD2":
 			x.check(s.False, "assert", "generated code reaches UD2")
 			x.abort(abEnd, "ud2")
